@@ -223,10 +223,12 @@ func RunTest(deployP platform.Platform, rc *platform.RunConfig) ([]*monitor.Stat
 	}
 
 	done := make(chan error)
+	monitorDone := make(chan bool)
 	go func() {
 		if err := m.Listen(); err != nil {
 			log.Error("error while closing monitor: " + err.Error())
 		}
+		close(monitorDone)
 	}()
 
 	go func() {
@@ -246,6 +248,11 @@ func RunTest(deployP platform.Platform, rc *platform.RunConfig) ([]*monitor.Stat
 			done <- err
 			return
 		}
+		// The simulation has ended, but what it measured may still be on its
+		// way: the monitor stops listening once the last reporting connection
+		// has been read to its end and all its measures are applied. Only then
+		// are the results complete.
+		<-monitorDone
 		done <- nil
 	}()
 
